@@ -67,7 +67,8 @@ structure KKT (K : Type) (n p m : Nat) where
   k : KBlocks K n p m
   /-- matrix that was last factorised (regularised copy of `k`) -/
   f : KBlocks K n p m
-  factOk : Bool
+  /-- the factorisation of `f`: `none` if it failed, otherwise the map rhs ↦ solution it provides -/
+  fsol : Option (Vec K n → Vec K p → Vec K m → Vec K n × Vec K p × Vec K m)
   -- caches
   ata : Mat K n n
   ac : Mat K p n
@@ -75,10 +76,13 @@ structure KKT (K : Type) (n p m : Nat) where
   gwg : Mat K n n
   pdiag : Vec K n
 
-/-- An inner solver for the reduced system: given the factorised blocks and a right-hand side returns
-    `none` if the factorisation failed. Blocks that the back end eliminated are ignored. -/
-abbrev Inner (K : Type) (n p m : Nat) :=
-  KBlocks K n p m → Vec K n → Vec K p → Vec K m → Option (Vec K n × Vec K p × Vec K m)
+abbrev SolveFn (K : Type) (n p m : Nat) := Vec K n → Vec K p → Vec K m → Vec K n × Vec K p × Vec K m
+
+/-- An inner factorisation of the reduced system: `none` if it fails (zero / non-positive pivot), otherwise
+    the solve map it provides. Blocks that the back end eliminated are ignored. -/
+abbrev Inner (K : Type) (n p m : Nat) := KBlocks K n p m → Option (SolveFn K n p m)
+
+def KKT.factOk {n p m : Nat} (k : KKT K n p m) : Bool := k.fsol.isSome
 
 section ops
 variable [Add K] [Sub K] [Mul K] [Div K] [Neg K] [Zero K] [One K] [LT K] [DecidableLT K] [LE K] [DecidableLE K]
@@ -152,7 +156,7 @@ def KKT.init (be : Backend) (d : Data K n p m) (rho delta : K)
     let ata := if p = 0 then zero else denseATA d
     let kxx := denseKxx d rho delta s zinv box ata
     let k : KBlocks K n p m := ⟨kxx, d.AT, d.GT, negDelta delta p, zzDiag s zinv delta⟩
-    { rho, delta, s, s_lb, s_ub, zinv, zinv_lb, zinv_ub, k, f := k, factOk := false,
+    { rho, delta, s, s_lb, s_ub, zinv, zinv_lb, zinv_ub, k, f := k, fsol := none,
       ata, ac, gc, gwg := zero, pdiag := Vec.const n 0 }
   | be =>
     let ata := if be.keepY then zero else mkATA ac d.AT
@@ -160,7 +164,7 @@ def KKT.init (be : Backend) (d : Data K n p m) (rho delta : K)
     -- note: at init the code scales GT*G by 1/(1+δ); `mkGWG … 0` with s = z⁻¹ = 1 gives GT*G
     let kxx := topLeft be d rho delta ata gwg box
     let k : KBlocks K n p m := ⟨kxx, d.AT, d.GT, negDelta delta p, Vector.ofFn fun _ => -(1 : K) - delta⟩
-    { rho, delta, s, s_lb, s_ub, zinv, zinv_lb, zinv_ub, k, f := k, factOk := false,
+    { rho, delta, s, s_lb, s_ub, zinv, zinv_lb, zinv_ub, k, f := k, fsol := none,
       ata, ac, gc, gwg, pdiag := Vector.ofFn fun j => d.P[j][j] }
 
 /-- the part of `update_scalings` / `update_data` that rewrites the reduced matrix from the current
@@ -255,7 +259,7 @@ def KKT.multiply (d : Data K n p m) (k : KKT K n p m) (v old : Step K n p m) : S
 /-- `regularize_and_factorize`: returns the state with the factorised snapshot `f`; success is decided by
     `factor` (the inner factorisation applied to the regularised blocks). -/
 def KKT.regFactor (be : Backend) (st : KKTSettings K) (d : Data K n p m) (k : KKT K n p m)
-    (refine : Bool) (factor : KBlocks K n p m → Bool) : KKT K n p m :=
+    (refine : Bool) (inner : Inner K n p m) : KKT K n p m :=
   let f : KBlocks K n p m :=
     if refine then
       let static : K :=
@@ -271,7 +275,7 @@ def KKT.regFactor (be : Backend) (st : KKTSettings K) (d : Data K n p m) (k : KK
                       yy := Vector.ofFn fun i => k.k.yy[i] - deltaReg,
                       zz := Vector.ofFn fun i => k.k.zz[i] - deltaReg }
     else k.k
-  { k with f := f, factOk := factor f }
+  { k with f := f, fsol := inner f }
 
 /-- residual `rhs - K·sol` of the reduced system on the blocks the back end keeps -/
 def redResidual (be : Backend) (kb : KBlocks K n p m) (rx : Vec K n) (ry : Vec K p) (rz : Vec K m)
@@ -293,14 +297,14 @@ def redNorm (be : Backend) (x : Vec K n) (y : Vec K p) (z : Vec K m) : K :=
   if be.keepZ then vmax b (Vec.infNorm z) else b
 
 /-- the iterative-refinement loop of `KKT::solve` (fuel = `iterative_refinement_max_iter`) -/
-def refineLoop (be : Backend) (st : KKTSettings K) (inner : Inner K n p m) (kf ku : KBlocks K n p m)
+def refineLoop (be : Backend) (st : KKTSettings K) (slv : SolveFn K n p m) (ku : KBlocks K n p m)
     (rx : Vec K n) (ry : Vec K p) (rz : Vec K m) (rhsNorm : K) :
     Nat → (Vec K n × Vec K p × Vec K m) → (Vec K n × Vec K p × Vec K m) → K → (Vec K n × Vec K p × Vec K m)
   | 0, sol, _, _ => sol
   | fuel + 1, sol, err, errNorm =>
     if errNorm ≤ st.refEpsAbs + st.refEpsRel * rhsNorm then sol   -- `error_norm <= tol` : break
     else
-      match inner kf err.1 err.2.1 err.2.2 with
+      match some (slv err.1 err.2.1 err.2.2) with
       | none => sol
       | some corr =>
         let ref : Vec K n × Vec K p × Vec K m :=
@@ -312,10 +316,10 @@ def refineLoop (be : Backend) (st : KKTSettings K) (inner : Inner K n p m) (kf k
         let rate := errNorm / errNorm'
         if rate < st.refMinRate then
           if 1 < rate then ref else sol
-        else refineLoop be st inner kf ku rx ry rz rhsNorm fuel ref err' errNorm'
+        else refineLoop be st slv ku rx ry rz rhsNorm fuel ref err' errNorm'
 
 /-- `KKT::solve`.  `rhs` has the layout of `Step`; `old` supplies the tails of the box outputs. -/
-def KKT.solve (be : Backend) (st : KKTSettings K) (inner : Inner K n p m) (d : Data K n p m)
+def KKT.solve (be : Backend) (st : KKTSettings K) (d : Data K n p m)
     (k : KKT K n p m) (r old : Step K n p m) (refine : Bool) : Option (Step K n p m) :=
   let deltaInv : K := 1 / k.delta
   let w : Vec K m := Vector.ofFn fun i => k.s[i] * k.zinv[i] + k.delta
@@ -331,15 +335,16 @@ def KKT.solve (be : Backend) (st : KKTSettings K) (inner : Inner K n p m) (d : D
     r.x[j] + (if be.keepZ then 0 else gt[j]) + (if be.keepY then 0 else deltaInv * at'[j]) - bl[j] + bu[j]
   let ry := r.y
   let rz := zbar
-  match inner k.f rx ry rz with
+  match k.fsol with
   | none => none
-  | some sol0 =>
+  | some slv =>
+    let sol0 := slv rx ry rz
     let sol :=
       if refine && decide (st.refMaxIter ≠ 0) then
         let rhsNorm := redNorm be rx ry rz
         let err := redResidual be k.k rx ry rz sol0.1 sol0.2.1 sol0.2.2
         let errNorm := redNorm be err.1 err.2.1 err.2.2
-        refineLoop be st inner k.f k.k rx ry rz rhsNorm st.refMaxIter sol0 err errNorm
+        refineLoop be st slv k.k rx ry rz rhsNorm st.refMaxIter sol0 err errNorm
       else sol0
     let dx := sol.1
     let ax := Mat.mulVecT d.AT dx
